@@ -52,23 +52,10 @@ func VerifHits() map[string]int64 {
 // into their initial (unallocated) state. Must not be called while other
 // goroutines use the library.
 func VerifResetGlobals() {
-	globalNumberingManager = nil
-	globalFootnoteManager = nil
+	// the numbering and note registries are per document now: nothing process-wide is left to reset
 }
 
 // VerifGlobals reports the sizes of the process-wide registries.
 func VerifGlobals() map[string]int {
-	out := map[string]int{}
-	if m := globalNumberingManager; m != nil {
-		out["abstractNums"] = len(m.abstractNums)
-		out["numInstances"] = len(m.numInstances)
-		out["nextNumID"] = m.nextNumID
-	}
-	if m := globalFootnoteManager; m != nil {
-		out["footnotes"] = len(m.footnotes)
-		out["endnotes"] = len(m.endnotes)
-		out["nextFootnoteID"] = m.nextFootnoteID
-		out["nextEndnoteID"] = m.nextEndnoteID
-	}
-	return out
+	return map[string]int{}
 }
